@@ -6,6 +6,33 @@ Tie: correspondence on *sharing signatures* and observable snapshots of every li
 step of random histories [build -> derive* / mutate*] (model mode `fixed` = tree with fixes/C14_*.patch).
 Oracle: the property itself on the real objects (snapshot equality of the untouched side, arguments
 unchanged also when the call fails, immutable collections unchanged through public routes).
+
+Round 3 (histories on one object, failure paths, process order, rare strata).  Producers and the
+consumers that are exercised (a change that keeps one producer/consumer pair consistent is seen by the
+untouched consumers):
+
+* `Header.duplicate/__copy__` + `Header.metadata` setter (deepcopy of metadata, own period)  <-  collection
+  `__add__..__neg__` (base and continuous overrides), `duplicate/__copy__`, `to_mutable`, `to_immutable`,
+  `to_unit/to_ip/to_si`, every `filter_by_*`, `cull_to_timestep`, aggregation (`average/total/percentile_*`),
+  `validate_analysis_period`, `interpolate_*`, `to_discontinuous`, `normalize/aggregate_by_area`,
+  `to_time_*`, `WindRose.__init__`, `Wea.directional_irradiance`, `HourlyPlot`, `MonthlyChart`
+  (sweep `check_derive`, every op x class x mutability x mutator x side, + `misc header_duplicate`).
+* `_check_aligned_header` (deepcopy of metadata, shared period)  <-  `get_aligned_collection` (base and
+  continuous), `compute_function_aligned`, `Wea._aligned_collection` (ghi, direct horizontal, directional).
+* values list of a collection (`values` setter copies, `values` getter hands out a tuple)  <-  constructors,
+  `duplicate`, `to_unit/ip/si` (incl. "already in that unit": the data types return the input list),
+  `get_aligned_collection(list)`, `values_append` through the getter, `to_dict`/`from_dict`.
+* class-level `_enumeration` memo (`to_immutable`, `to_mutable`, `get_aligned_collection(mutable=..)`,
+  `compute_function_aligned`)  <-  process-order runs (immutable / rare classes first in a fresh interpreter).
+* EPW unit state (`convert_to_ip/si`, `is_ip`)  <-  `to_file_string`, `write`, `save`, `to_wea` (each
+  succeeding and failing in every way the argument checks allow, SI and IP object), `to_dict`, the 35 field
+  collections, `sky_temperature` (asked repeatedly, results edited in between).
+* Wea members / metadata / Location  <-  `duplicate`, `filter_by_*`, ghi / direct horizontal / directional
+  irradiance (asked repeatedly), `to_dict`, `to_file_string`, `write` (also failing).
+
+History layer: every deriving step of a history may be asked AGAIN later (`again` marker): as long as the
+objects it read were not edited by a successful step, the new answer must equal the answer given the first
+time (whatever was done to the first answer meanwhile); a refused step must leave every object as it was.
 """
 import contextlib
 import copy
@@ -30,12 +57,20 @@ RULE = ('correspondence: random histories (1-3 source collections of the 5 class
         'setter / get_aligned_collection / compute_function_aligned, edited), Wea objects (from_dict, '
         'duplicate, filter_by_*, derived collections, the aliasing constructor, edits of their collections '
         'and metadata) and separate histories around an EPW object (unit conversion, to_file_string and '
-        'to_wea succeeding and failing, edits); ~10 % malformed arguments); after every step the model must '
+        'to_wea succeeding and failing, edits); ~10 % malformed arguments; ~12 % of the steps ask an earlier '
+        'deriving step AGAIN); after every step the model must '
         'predict the result status, the sharing signature (which of header / metadata dict / nested metadata '
         'lists / analysis period / values list / Location of the result are the same objects as those of '
         'any live object) and the snapshot of every live object. oracle: derive x mutator x side sweeps and '
         'random histories on the real objects, Wea / EPW / chart constructors and exports, from_dict '
-        'arguments; non-trivial = the step returned an object or edited one; distinct = distinct history '
+        'arguments; round 3: every sweep case asks the derivation again after each edit of its first answer; '
+        'refused mutators and refused derivations (arguments the validation code rejects) as own strata; rare '
+        'source strata (one value, leap year with 29 Feb, timesteps 2..60, no metadata, all-zero / falsy '
+        'content); histories compare every derivation with the same derivation on history-free twins built '
+        'from the public state, and re-asked derivations with the first answer; EPW histories on one object '
+        '(SI/IP, 15 public calls succeeding and refused, sky temperature asked repeatedly); the same derived '
+        'view asked repeatedly from one Wea / EPW / Header; a slice of all this in 3-4 fresh interpreters in '
+        'different orders (refused calls, immutable, metadata-free, IP, leap first); non-trivial = the step returned an object or edited one; distinct = distinct history '
         'or (operation, class, mutability, mutator, side)')
 TRUSTED_BASE = [
     'hand model Model/Heap.lean of which cells each API operation allocates or aliases (tied by the '
@@ -93,10 +128,13 @@ def _dt_token(cls, d):
     return int(d)
 
 
-def _dt_from_token(cls, t):
+def _dt_from_token(cls, t, leap=False):
     from ladybug.dt import DateTime
     if cls in ('hd', 'hc'):
-        d = date(2017, 1, 1).fromordinal(date(2017, 1, 1).toordinal() + t // 1440)
+        y = 2016 if leap else 2017
+        d = date(y, 1, 1).fromordinal(date(y, 1, 1).toordinal() + t // 1440)
+        if leap:
+            return DateTime(d.month, d.day, (t % 1440) // 60, t % 60, True)
         return DateTime(d.month, d.day, (t % 1440) // 60, t % 60)
     if cls == 'mph':
         return (t // 10000, (t // 100) % 100, t % 100)
@@ -133,7 +171,8 @@ def build_obj(spec, values=None):
     vals = list(spec['vals']) if values is None else values
     if spec['cls'] == 'hc':
         return cls(hdr, vals)
-    return cls(hdr, vals, [_dt_from_token(spec['cls'], t) for t in spec['dts']])
+    leap = bool(spec['ap'][7])
+    return cls(hdr, vals, [_dt_from_token(spec['cls'], t, leap) for t in spec['dts']])
 
 
 def _mv(v):
@@ -289,12 +328,66 @@ def snapshot(c):
                 (c.timestep, c.is_leap_year, c.enforce_on_hour))
     if kind == 'epw':
         return ('epw', snapshot(c.dry_bulb_temperature), snapshot(c.dew_point_temperature),
-                json.dumps(c.metadata, sort_keys=True, default=str), c.is_ip)
+                json.dumps(c.metadata, sort_keys=True, default=str), c.is_ip, _epw_digest(c))
     h = c.header
     return (type(c).__name__, tuple(c.values), h.unit, type(h.data_type).__name__,
             tuple(_ap_tokens(h.analysis_period)), json.dumps(h.metadata, sort_keys=True, default=str),
             tuple(str(d) for d in c.datetimes), bool(c.validated_a_period),
             type(c.values).__name__)
+
+
+def _epw_digest(e):
+    """All 35 fields of an EPW, cheaply: unit, data type, length, sum, first / middle / last values."""
+    out = []
+    for i in range(35):
+        try:
+            c = e._get_data_by_field(i)
+        except Exception as ex:
+            out.append((i, type(ex).__name__))
+            continue
+        v = c._values
+        n = len(v)
+        try:
+            tot = float(sum(v))
+        except TypeError:
+            tot = 'n/a'
+        out.append((c.header.unit, type(c.header.data_type).__name__, n, tot,
+                    tuple(v[:2]), tuple(v[n // 2:n // 2 + 1]), tuple(v[-2:]), type(v).__name__,
+                    json.dumps(c.header.metadata, sort_keys=True, default=str)))
+    return tuple(out)
+
+
+def _epw_lists(base):
+    db = [base[i % 24] + (i // 24) % 7 for i in range(8760)]
+    dp = [base[(i + 5) % 24] - 3 for i in range(8760)]
+    return db, dp
+
+
+def _epw_call(e, call, tmp):
+    """One public call on an EPW; the part after ':' names the way it is made to fail."""
+    name, _, bad = call.partition(':')
+    blocker = os.path.join(tmp, 'plainfile')
+    if not os.path.exists(blocker):
+        with open(blocker, 'w') as f:
+            f.write('x')
+    ext = {'to_wea': 'wea', 'write': 'epw', 'save': 'epw', 'to_mos': 'mos', 'to_ddy': 'ddy'}.get(name, 'txt')
+    path = os.path.join(blocker, 'sub', 'x.' + ext) if bad == 'path' else os.path.join(tmp, 'x.' + ext)
+    if name == 'to_wea':
+        hoys = {'hoys-range': [3, 9000], 'hoys-neg': [5, -9000], 'hoys-type': [0, 'a'], 'hoys-float': [1.5],
+                'hoys-none-item': [2, None], 'hoys-empty': []}.get(bad, [0, 12, 8759] if bad == 'hoys' else None)
+        return e.to_wea(path, hoys) if hoys is not None else e.to_wea(path)
+    if name in ('write', 'save', 'to_mos', 'to_ddy'):
+        return getattr(e, name)(path)
+    if name == 'to_file_string':
+        return e.to_file_string()
+    if name == 'to_dict':
+        return e.to_dict()
+    raise ValueError(call)
+
+
+EPW_CALLS = ['to_wea', 'to_wea:hoys', 'to_wea:hoys-range', 'to_wea:hoys-neg', 'to_wea:hoys-type',
+             'to_wea:hoys-float', 'to_wea:hoys-none-item', 'to_wea:hoys-empty', 'to_wea:path', 'write:path',
+             'save:path', 'to_file_string', 'to_mos:path', 'to_ddy:path', 'to_dict']
 
 
 # ---------------------------------------------------------------------------------------------
@@ -439,13 +532,15 @@ def apply_mutator(c, op, a):
     elif op == 'conv_si':
         c.convert_to_si()
     elif op == 'set_values':
-        c.values = list(a['v'])
+        c.values = a['scalar'] if 'scalar' in a else list(a['v'])
     elif op == 'set_item':
         c[a['i']] = a['x']
     elif op == 'set_values_ref':                # the values setter receives the caller's own list
         c.values = a['_live'][a['r']]
     elif op == 'meta_set':
         c.header.metadata[a['k']] = list(a['v']) if isinstance(a['v'], list) else a['v']
+    elif op == 'meta_replace' and 'notdict' in a:
+        c.header.metadata = a['notdict']
     elif op == 'meta_replace':
         c.header.metadata = dict((k, list(v) if isinstance(v, list) else v) for k, v in a['m'].items())
     elif op == 'meta_append':                   # nested metadata value edited in place
@@ -972,12 +1067,27 @@ def exec_step(live, st):
     if k == 'en':
         from ladybug.epw import EPW
         e = EPW.from_missing_values()
-        e.dry_bulb_temperature.values = list(st['db'])
-        e.dew_point_temperature.values = list(st['dp'])
+        db, dp = _epw_lists(st['base']) if 'base' in st else (st['db'], st['dp'])
+        e.dry_bulb_temperature.values = list(db)
+        e.dew_point_temperature.values = list(dp)
+        if 'base' in st:        # radiation / infrared fields with data (exports and sky temperature read them)
+            e.direct_normal_radiation.values = [max(0, 40 * (db[i] % 13) - 100) for i in range(8760)]
+            e.diffuse_horizontal_radiation.values = [max(0, 9 * (dp[i] % 11)) for i in range(8760)]
+            e.horizontal_infrared_radiation_intensity.values = [300 + db[i] for i in range(8760)]
         status = 'ok %d %s' % (len(live), share_str_wea(live, e))
         live.append(e)
-        return [(status, 'en %s %s %s %s' % (_lst(ANNUAL_AP), _lst(ANNUAL_DTS), _lst(st['db'], _frac),
-                                           _lst(st['dp'], _frac)))]
+        return [(status, 'en %s %s %s %s' % (_lst(ANNUAL_AP), _lst(ANNUAL_DTS), _lst(db, _frac),
+                                           _lst(dp, _frac)))]
+    if k == 'ex':               # oracle only: any public call on the EPW, succeeding or refused
+        tmp = tempfile.mkdtemp()
+        try:
+            _epw_call(live[st['on']], st['call'], tmp)
+            status = 'ok'
+        except Exception as ex:
+            status = 'err:' + err_name(ex)
+        finally:
+            shutil.rmtree(tmp, ignore_errors=True)
+        return [(status, '')]
     if k == 'ec':
         e = live[st['on']]
         if st['ip']:
@@ -1191,6 +1301,53 @@ def epw_history(rng, sky_ok):
     return steps
 
 
+def epw_oracle_history(rng, ip_first=False):
+    """Oracle history around ONE EPW object: unit conversions, every export succeeding and refused (bad hours,
+    bad path), sky temperature asked repeatedly with edits of the earlier answers in between, edits of
+    member collections and metadata."""
+    steps = [{'k': 'en', 'base': [rng.randint(-20, 35) for _ in range(24)]}]
+    nlive, sky, first_sky = 1, [], None
+    if ip_first or rng.random() < 0.5:
+        steps.append({'k': 'ec', 'on': 0, 'ip': True})
+    if rng.random() < 0.5:          # read -> edit the answer -> read again
+        first_sky = len(steps)
+        steps += [{'k': 'es', 'on': 0},
+                  {'k': 'm', 'on': 1, 'op': rng.choice(['conv_unit', 'set_item', 'meta_set']),
+                   'args': {'u': 2, 'i': 7, 'x': -99.5, 'k': 'k1', 'v': 'edited'}},
+                  {'k': 'es', 'on': 0, 'again': first_sky}]
+        sky, nlive = [1, 2], 3
+    for _ in range(rng.randint(3, 7)):
+        r = rng.random()
+        if r < 0.12:
+            steps.append({'k': 'ec', 'on': 0, 'ip': rng.random() < 0.6})
+            first_sky = None                # (a successful edit: the next asking is a first asking)
+        elif r < 0.5:
+            steps.append({'k': 'ex', 'on': 0, 'call': rng.choice(EPW_CALLS)})
+        elif r < 0.68:
+            st = {'k': 'es', 'on': 0}
+            if first_sky is not None:
+                st['again'] = first_sky
+            else:
+                first_sky = len(steps)
+            steps.append(st)
+            sky.append(nlive)
+            nlive += 1
+        elif r < 0.84 and sky:
+            op, a = rng.choice([('conv_unit', {'u': 1}), ('conv_unit', {'u': 2}), ('conv_ip', {}),
+                                ('set_item', {'i': rng.randrange(100), 'x': 99.5}),
+                                ('meta_set', {'k': 'k1', 'v': 'edited'}), ('meta_replace', {'m': {}}),
+                                ('set_item', {'i': -1, 'x': 0}), ('conv_unit', {'u': 3})])
+            steps.append({'k': 'm', 'on': rng.choice(sky), 'op': op, 'args': a})
+        elif r < 0.93:
+            steps.append({'k': 'wm', 'on': 0, 'mk': rng.randrange(2), 'op': rng.choice(['set_item', 'meta_set']),
+                          'args': {'i': rng.randrange(50), 'x': 0.5, 'k': 'k1', 'v': rng.choice([4, [1]])}})
+            first_sky = None
+        else:
+            steps.append({'k': 'ws', 'on': 0, 'key': rng.choice(['city', 'k1']), 'v': rng.choice(['X', 3])})
+            first_sky = None
+    return {'steps': steps}
+
+
 def run_steps(steps, ctx=None):
     """Execute plain steps -> (model line, implementation trace, the steps that were kept)."""
     live, cmds, trace, kept = [], [], [], []
@@ -1222,6 +1379,7 @@ def run_history(rng, ctx=None, max_steps=8):
         else:
             specs.append(gen_spec(rng))
     live, cmds, trace, kept = [], [], [], []
+    derived = []                # positions (in `kept`) of the deriving steps that answered
 
     def do(st):
         n0 = len(live)
@@ -1234,7 +1392,11 @@ def run_history(rng, ctx=None, max_steps=8):
             shown = live[:n0 + k + 1] if len(out) > 1 else live
             trace.append(status + ' # ' + _obs_all(shown))
         status = out[-1][0]
+        if st['k'] in DERIVE_KINDS and status.startswith('ok') and st.get('op') != 'cfa_ref':
+            derived.append(len(kept) - 1)
         if ctx:
+            if 'again' in st:
+                ctx.count('step:asked-again')
             if st['k'] in ('d', 'm'):
                 ctx.count(('derive:' if st['k'] == 'd' else 'mutate:') + st['op'])
                 ctx.count(('derive_status:' if st['k'] == 'd' else 'mutate_status:') + status.split(' ')[0])
@@ -1247,7 +1409,12 @@ def run_history(rng, ctx=None, max_steps=8):
     for _ in range(nsteps):
         malformed = rng.random() < 0.1
         infos = [_info(c, live) for c in live]
-        st = gen_step(rng, infos, malformed, alias_ok=ctx is not None)
+        if derived and rng.random() < 0.12:
+            # the same question once more (same object, same arguments), whatever happened meanwhile
+            pos = rng.choice(derived)
+            st = dict(copy.deepcopy(kept[pos]), again=kept[pos].get('again', pos))
+        else:
+            st = gen_step(rng, infos, malformed, alias_ok=ctx is not None)
         if ctx and st['k'] == 'd':
             me = infos[st['on']]
             ctx.count('derive_on:%s/%s' % (me['cls'], 'mut' if me['mutable'] else 'imm'))
@@ -1410,13 +1577,44 @@ ORACLE_MUTATORS = [
     ('meta_set', {'k': 'k1', 'v': 'edited'}), ('meta_set', {'k': 'znew', 'v': 1}),
     ('meta_replace', {'m': {'other': 1}}), ('meta_append', {'k': 'k2', 'x': 77}),
     ('cull_inplace', {'ts': 1}), ('values_append', {'x': 5}),
+    # refused operations (arguments the validation code rejects): the target and everything else stay as they were
+    ('conv_unit', {'u': 3}), ('set_values', {'bad': 'long'}), ('set_values', {'bad': 'empty'}),
+    ('set_values', {'bad': 'scalar'}), ('set_item', {'bad': 'index'}), ('cull_inplace', {'ts': 7}),
+    ('meta_replace', {'bad': 'list'}), ('meta_append', {'k': 'k1', 'x': 1}),
 ]
+N_PLAIN_MUTATORS = 13
+REFUSED_IDX = list(range(N_PLAIN_MUTATORS, N_PLAIN_MUTATORS + 8))
 
 
 def _mut_args(op, a, c):
     if op == 'set_values' and not a:
         return {'v': [1000 + i for i in range(len(c.values))]}
+    if a and a.get('bad') == 'long':
+        return {'v': [7] * (len(c.values) + 1)}
+    if a and a.get('bad') == 'empty':
+        return {'v': []}
+    if a and a.get('bad') == 'scalar':
+        return {'scalar': 5}
+    if a and a.get('bad') == 'index':
+        return {'i': len(c.values) + 3, 'x': 1}
+    if a and a.get('bad') == 'list':
+        return {'notdict': [1, 2]}
+    if op in ('meta_set', 'meta_replace', 'meta_append'):
+        # a token never written before in this process: an edit that lands in a dictionary shared at
+        # module / class level is then visible whatever earlier cases have written there
+        _EDIT_COUNTER[0] += 1
+        a = dict(a)
+        if op == 'meta_set':
+            a['v'] = '%s#%d' % (a['v'], _EDIT_COUNTER[0])
+        elif op == 'meta_append':
+            a['x'] = '%s#%d' % (a['x'], _EDIT_COUNTER[0])
+        else:
+            a['m'] = dict(a['m'], token=_EDIT_COUNTER[0])
+        return a
     return dict(a)
+
+
+_EDIT_COUNTER = [0]
 
 
 def _try_mut(c, op, a):
@@ -1503,6 +1701,7 @@ def check_derive(inp):
                 others = [t for t in others if t[2] is not target]
                 snap = [snapshot(o) for _, _, o in others]
                 tsnap = snapshot(target)
+                birth = [snapshot(r) for r in res]
                 outcome = _try_mut(target, op, ma)
                 if side == 'result':
                     for key in list(plain_before):
@@ -1532,49 +1731,176 @@ def check_derive(inp):
                 if outcome.startswith('raises') and snapshot(target) != tsnap:
                     return {'required': 'failed %s leaves its target unchanged' % op,
                             'observed': outcome, 'sig': dict(sig, side='failed-mutator', mutator=op)}
+                if side == 'result':
+                    # the same question asked again: the sources were not edited, so the answer is the one
+                    # given the first time, whatever was done to the first answer meanwhile (no memo that
+                    # hands out the earlier object or parts of it)
+                    try:
+                        res2 = apply_derive(objs, d['on'], d['op'], copy.deepcopy(d['args']))
+                    except Exception as e:
+                        return {'required': '%s answers again after %s on its first result' % (d['op'], op),
+                                'observed': type(e).__name__, 'sig': dict(sig, side='again-raises', mutator=op)}
+                    for k2, r2 in enumerate(res2):
+                        if any(r2 is r1 for r1 in res):
+                            return {'required': '%s asked again returns a new object' % d['op'],
+                                    'observed': 'the object handed out before',
+                                    'sig': dict(sig, side='again-same-object')}
+                        s2 = snapshot(r2)
+                        if k2 < len(birth) and s2 != birth[k2]:
+                            diff = [n for n, (x, y) in zip(
+                                ('class', 'values', 'unit', 'data_type', 'period', 'metadata', 'datetimes',
+                                 'validated', 'values_type'), zip(birth[k2], s2)) if x != y]
+                            return {'required': '%s asked again (sources untouched, first result edited by %s: '
+                                                '%s) answers as the first time' % (d['op'], op, outcome),
+                                    'observed': 'differs in: %s' % ','.join(diff),
+                                    'sig': dict(sig, side='again-differs', mutator=op, changed=','.join(diff))}
     return None
 
 
+def _fresh_twin(c):
+    """A history-free object with the public state of `c` (a collection or a list the caller holds)."""
+    if isinstance(c, list):
+        return list(c)
+    from ladybug.header import Header
+    h = c.header
+    hdr = Header(h.data_type, h.unit, _mk_ap(_ap_tokens(h.analysis_period)), copy.deepcopy(h.metadata))
+    if CLS.get(c._collection_type) == 'hc':
+        t = type(c)(hdr, list(c.values))
+    else:
+        t = type(c)(hdr, list(c.values), list(c.datetimes))
+        if isinstance(c.datetimes, list):       # quirk of convert_to_culled_timestep (a list, kept)
+            t._datetimes = list(c.datetimes)
+    t._validated_a_period = c.validated_a_period
+    return t
+
+
+DERIVE_KINDS = ('d', 'wd', 'wf', 'wr', 'es')
+EDIT_KINDS = ('m', 'lm', 'wm', 'ws', 'ec')
+SNAP_NAMES = ('class', 'values', 'unit', 'data_type', 'period', 'metadata', 'datetimes', 'validated',
+              'values_type')
+
+
+def _close(a, b):
+    """Equality of snapshots; floats within 1e-9 relative (an IP EPW goes IP -> SI -> IP in an export)."""
+    if isinstance(a, float) or isinstance(b, float):
+        try:
+            return a == b or abs(a - b) <= 1e-9 * max(1.0, abs(a), abs(b))
+        except TypeError:
+            return False
+    if isinstance(a, tuple) and isinstance(b, tuple):
+        return len(a) == len(b) and all(_close(x, y) for x, y in zip(a, b))
+    return a == b
+
+
+def _snap_same(a, b):
+    if a == b:
+        return True
+    return a[:1] == ('epw',) and _close(a, b)
+
+
+def _step_reads(st):
+    a = st.get('args', {}) or {}
+    refs = [st.get('on', 0)]
+    refs += [a[x] for x in ('c', 'j', 'r', 'args') if isinstance(a.get(x), int) and not isinstance(a.get(x), bool)]
+    return refs
+
+
 def check_history(inp):
-    """Random history on the real objects: after a step that builds or derives something every older
-    object is unchanged; after an in-place edit of one object every other object is unchanged (and the
-    target too when the call raised or the target is an immutable collection)."""
+    """Random history on the real objects (collections, caller's lists, Wea, EPW): after a step that
+    builds or derives something every older object is unchanged; after an in-place edit of one object
+    every other object is unchanged (and the target too when the call raised or the target is an
+    immutable collection); exports of an EPW leave it as it was, succeeding or failing; a deriving step
+    asked AGAIN (marker `again` = position of the first asking) answers as the first time as long as no
+    successful edit touched the objects it reads."""
     live = []
-    names = ('class', 'values', 'unit', 'data_type', 'period', 'metadata', 'datetimes', 'validated',
-             'values_type')
+    names = SNAP_NAMES
+    version = []                 # per live object: number of successful in-place edits
+    asked = {}                   # position -> (reads, versions then, snapshots of the answers at birth)
     for n, st in enumerate(inp['steps']):
         refs = [st.get('on', 0), st.get('vr') or 0, st.get('i', 0) if st['k'] in ('na', 'wi') else 0,
                 st.get('c', 0) if st['k'] == 'na' else 0, st.get('j', 0) if st['k'] == 'wi' else 0]
         a = st.get('args', {})
         refs += [a.get(x, 0) or 0 for x in ('c', 'j', 'r', 'args')]
-        if any(r >= len(live) for r in refs):
+        if any(isinstance(r, int) and r >= len(live) for r in refs):
             continue            # an earlier step did not produce its object (changed implementation)
         before = [snapshot(o) for o in live]
         n0 = len(live)
+        fresh = None
+        if st['k'] == 'd' and st.get('op') != 'cfa_ref' and all(_kind(live[r]) in ('coll', 'list')
+                                                                 for r in _step_reads(st)):
+            # the same question put to history-free twins of the objects it reads
+            alt = list(live)
+            try:
+                for r in set(_step_reads(st)):
+                    alt[r] = _fresh_twin(live[r])
+                fresh = [snapshot(x) for x in apply_derive(alt, st['on'], st['op'], copy.deepcopy(st.get('args', {})))]
+            except Exception as e:
+                fresh = 'raises ' + type(e).__name__
         try:
             out = exec_step(live, copy.deepcopy(st))
         except Exception as e:
             out = ('err:harness ' + type(e).__name__, '')
         status = out[0] if out else 'dropped'
-        target = st['on'] if st['k'] in ('m', 'lm', 'wm', 'ws') else None
+        target = st['on'] if st['k'] in EDIT_KINDS else None
         if isinstance(out, list):
             out = (out[-1][0], '')
+            status = out[0]
         untouched = list(range(n0))
         if target is not None and status == 'ok':
             tgt = live[target]
             immutable = _kind(tgt) == 'coll' and not tgt.is_mutable and st['k'] == 'm'
             if not immutable or st.get('op', '').startswith('meta_'):
                 untouched.remove(target)    # (metadata edits of immutables: reported separately)
+                version[target] += 1
+        while len(version) < len(live):
+            version.append(0)
         after = [snapshot(o) for o in live[:n0]]
         for i in untouched:
-            if after[i] != before[i]:
+            if not _snap_same(after[i], before[i]):
                 diff = [nm for nm, (x, y) in zip(names, zip(before[i], after[i])) if x != y] \
-                    if before[i][0] not in ('list', 'args') else [before[i][0]]
-                return {'required': 'object %d unchanged by step %d (%s %s on %s)' % (
-                            i, n, st['k'], st.get('op', ''), st.get('on', '-')),
+                    if before[i][0] not in ('list', 'args', 'epw', 'wea') else [before[i][0]]
+                return {'required': 'object %d unchanged by step %d (%s %s on %s: %s)' % (
+                            i, n, st['k'], st.get('op', st.get('call', '')), st.get('on', '-'), status),
                         'observed': 'changed: ' + ','.join(diff),
-                        'sig': {'step': st.get('op', st['k']), 'kind': st['k'], 'changed': ','.join(diff),
-                                'self': i == target}}
+                        'sig': {'step': st.get('op', st.get('call', st['k'])), 'kind': st['k'],
+                                'changed': ','.join(diff), 'self': i == target,
+                                'refused': status.startswith('err')}}
+        if fresh is not None and (str(status).startswith('ok') or not isinstance(fresh, str)):
+            got = [snapshot(o) for o in live[n0:]] if str(status).startswith('ok') else 'raises (%s)' % status
+            if isinstance(fresh, str) != isinstance(got, str) or (
+                    not isinstance(got, str) and (len(got) != len(fresh) or
+                                                  any(not _snap_same(x, y) for x, y in zip(got, fresh)))):
+                if isinstance(fresh, str) or isinstance(got, str):
+                    diff = ['outcome']
+                else:
+                    diff = sorted(set(nm for x, y in zip(got, fresh) for nm, (p, q) in zip(names, zip(x, y)) if p != q))
+                return {'required': 'step %d (%s on %d) answers as it does for history-free objects with the same '
+                                    'public state: %s' % (n, st.get('op'), st.get('on'),
+                                                          fresh if isinstance(fresh, str) else 'answers'),
+                        'observed': 'differs in: %s%s' % (','.join(diff), ' (%s)' % got if isinstance(got, str) else ''),
+                        'sig': {'step': st.get('op'), 'kind': 'd', 'fresh': True, 'changed': ','.join(diff)}}
+        if st['k'] in DERIVE_KINDS and str(status).startswith('ok') and len(live) > n0:
+            reads = _step_reads(st)
+            birth = [snapshot(o) for o in live[n0:]]
+            first = asked.get(st.get('again'))
+            if first is not None and first[0] == reads and first[1] == [version[r] for r in reads]:
+                for k2, (s1, s2) in enumerate(zip(first[2], birth)):
+                    if not _snap_same(s1, s2):
+                        diff = [nm for nm, (x, y) in zip(names, zip(s1, s2)) if x != y] \
+                            if s1[0] not in ('list', 'args', 'epw', 'wea') else [s1[0]]
+                        return {'required': 'step %d asks step %d again (%s %s on %s; the objects it reads were '
+                                            'not edited in between): the same answer' % (
+                                                n, st['again'], st['k'], st.get('op', st.get('what', '')), st.get('on')),
+                                'observed': 'answer %d differs in: %s' % (k2, ','.join(diff)),
+                                'sig': {'step': st.get('op', st.get('what', st['k'])), 'kind': st['k'],
+                                        'again': True, 'changed': ','.join(diff)}}
+                for o in live[n0:]:
+                    if any(o is x for x in live[:n0]):
+                        return {'required': 'step %d (asked again) returns new objects' % n,
+                                'observed': 'an object handed out before',
+                                'sig': {'step': st.get('op', st.get('what', st['k'])), 'kind': st['k'],
+                                        'again': True, 'changed': 'same-object'}}
+            asked[n] = (reads, [version[r] for r in reads], birth)
     return None
 
 
@@ -1743,6 +2069,155 @@ def check_misc(inp):
             return {'required': 'EPW.metadata unchanged by an edit of sky_temperature.header.metadata',
                     'observed': e.metadata, 'sig': sig}
         return None
+    if what == 'dict_round_trip':
+        # X.from_dict(x.to_dict()) without JSON in between: a new object from an existing one
+        from ladybug.header import Header
+        c = build_obj(_HC24)
+        if inp.get('via') == 'header':
+            src_h, new_h = c.header, Header.from_dict(c.header.to_dict())
+        else:
+            new_c = type(c).from_dict(c.to_dict())
+            src_h, new_h = c.header, new_c.header
+        before = json.dumps(src_h.metadata, sort_keys=True)
+        new_h.metadata['edited'] = 1
+        new_h.metadata['k2'].append(9)
+        if json.dumps(src_h.metadata, sort_keys=True) != before:
+            return {'required': 'metadata of the source unchanged by an edit of the object read back from its '
+                                'to_dict(): %s' % before, 'observed': src_h.metadata, 'sig': sig}
+        return None
+    if what == 'epw_call':
+        # any public call on a real EPW (SI or IP), succeeding or refused: all 35 fields, the unit flag and
+        # the metadata read as before
+        ip = bool(inp.get('ip'))
+        e = _EPW_CACHE.pop(ip, None) or _epw(ip)     # ONE object serves many calls while it stays as it was
+        before = (_epw_digest(e), e.is_ip, json.dumps(e.metadata, sort_keys=True, default=str))
+        tmp = tempfile.mkdtemp()
+        failed = None
+        try:
+            _epw_call(e, inp['call'], tmp)
+        except Exception as ex:
+            failed = type(ex).__name__
+        finally:
+            shutil.rmtree(tmp, ignore_errors=True)
+        after = (_epw_digest(e), e.is_ip, json.dumps(e.metadata, sort_keys=True, default=str))
+        if not _close(before, after):
+            bad = [i for i in range(35) if not _close(before[0][i], after[0][i])]
+            return {'required': 'EPW (is_ip=%s) unchanged by %s%s' % (ip, inp['call'], ' (refused: %s)' % failed
+                                                                       if failed else ''),
+                    'observed': 'is_ip %s -> %s; fields changed: %s; e.g. %s -> %s' % (
+                        before[1], after[1], bad[:8], before[0][bad[0]][:4] if bad else '-',
+                        after[0][bad[0]][:4] if bad else '-'),
+                    'sig': dict(sig, ip=ip, call=inp['call'], refused=bool(failed))}
+        if before == after:
+            _EPW_CACHE[ip] = e
+        return None
+    if what == 'refused_wea':
+        w = _wea()
+        before = _wea_snap(w)
+        tmp = tempfile.mkdtemp()
+        failed = None
+        try:
+            call = inp['call']
+            if call == 'write:path':
+                blocker = os.path.join(tmp, 'plainfile')
+                with open(blocker, 'w') as f:
+                    f.write('x')
+                w.write(os.path.join(blocker, 'sub', 'x.wea'))
+            elif call == 'filter_by_pattern:empty':
+                w.filter_by_pattern([])
+            elif call == 'filter_by_hoys:text':
+                w.filter_by_hoys(['a'])
+            elif call == 'filter_by_analysis_period:timestep':
+                w.filter_by_analysis_period(_mk_ap([1, 1, 0, 1, 2, 23, 2, 0]))
+            elif call == 'directional_irradiance:text':
+                w.directional_irradiance('up', 180)
+            elif call == 'estimate_illuminance_components:misaligned':
+                w.estimate_illuminance_components(build_obj(_HC24))
+            elif call == 'get_irradiance_value:outside':
+                w.get_irradiance_value(13, 40, 25)
+            else:
+                raise ValueError(call)
+        except Exception as ex:
+            failed = type(ex).__name__
+        finally:
+            shutil.rmtree(tmp, ignore_errors=True)
+        if _wea_snap(w) != before:
+            return {'required': 'Wea unchanged by %s%s' % (inp['call'], ' (refused: %s)' % failed if failed else ''),
+                    'observed': 'changed', 'sig': dict(sig, call=inp['call'], refused=bool(failed))}
+        return None
+    if what == 'reread':
+        # the same derived view asked for repeatedly from ONE source; the earlier answers are edited in
+        # between: every new answer equals the first one and is a new object
+        from ladybug.wea import Wea
+        from ladybug.header import Header
+        kind, get = inp['obj'], inp['get']
+        if kind == 'wea':
+            src = _wea()
+            getter = {'ghi': lambda: src.global_horizontal_irradiance,
+                      'dhi': lambda: src.direct_horizontal_irradiance,
+                      'directional': lambda: src.directional_irradiance(45, 180),
+                      'duplicate': lambda: src.duplicate(),
+                      'filter_pattern': lambda: src.filter_by_pattern([True, False, False]),
+                      'filter_hoys': lambda: src.filter_by_hoys([0, 1, 12]),
+                      'filter_ap': lambda: src.filter_by_analysis_period(_mk_ap([1, 1, 0, 1, 2, 23, 1, 0]))}[get]
+        elif kind == 'epw':
+            from ladybug.epw import EPW
+            src = EPW.from_missing_values()
+            src.metadata['source'] = 'station'
+            src.horizontal_infrared_radiation_intensity.values = [300 + (i % 40) for i in range(8760)]
+            if inp.get('ip'):
+                src.convert_to_ip()
+            getter = {'sky_temperature': lambda: src.sky_temperature}[get]
+        else:
+            src = Header(_dtype(), 'C', _mk_ap([1, 1, 0, 1, 1, 23, 1, 0]), {'k1': 1, 'k2': [1, 2]})
+            getter = {'duplicate': lambda: src.duplicate(), 'copy': lambda: copy.copy(src)}[get]
+
+        def parts(r):
+            if isinstance(r, Wea):
+                return [r.direct_normal_irradiance, r.diffuse_horizontal_irradiance]
+            return list(r) if isinstance(r, (tuple, list)) else [r]
+
+        def snap(x):
+            if isinstance(x, Header):
+                return (x.unit, type(x.data_type).__name__, tuple(_ap_tokens(x.analysis_period)),
+                        json.dumps(x.metadata, sort_keys=True, default=str))
+            return snapshot(x)
+        first = parts(getter())
+        birth = [snap(x) for x in first]
+        handed = list(first)
+        for op, ma in (ORACLE_MUTATORS if inp.get('all') else ORACLE_MUTATORS[:N_PLAIN_MUTATORS] + ORACLE_MUTATORS[-2:]):
+            if op in ('values_append', 'cull_inplace'):
+                continue
+            r1 = parts(getter())
+            handed.extend(r1)
+            for x in r1:
+                try:
+                    if isinstance(x, Header):
+                        if op == 'meta_set':
+                            x.metadata[ma['k']] = ma['v']
+                        elif op == 'meta_append':
+                            x.metadata['k2'].append(ma['x'])
+                        elif op == 'meta_replace':
+                            x.metadata = {'other': 1}
+                        else:
+                            x._unit = 'F'
+                    else:
+                        apply_mutator(x, op, _mut_args(op, ma, x))
+                except Exception:
+                    pass
+            r2 = parts(getter())
+            for k2, x in enumerate(r2):
+                if any(x is y for y in handed):
+                    return {'required': '%s.%s asked again returns a new object' % (kind, get),
+                            'observed': 'an object handed out before', 'sig': dict(sig, obj=kind, get=get,
+                                                                                   changed='same-object')}
+                if snap(x) != birth[k2]:
+                    return {'required': '%s.%s asked again (source untouched; earlier answers edited by %s) '
+                                        'answers as the first time' % (kind, get, op),
+                            'observed': 'answer %d differs' % k2,
+                            'sig': dict(sig, obj=kind, get=get, mutator=op)}
+            handed.extend(r2)
+        return None
     if what in ('epw_from_dict_args', 'location_from_dict_args'):
         # a dictionary handed to from_dict is the caller's object
         if what == 'location_from_dict_args':
@@ -1806,6 +2281,8 @@ def check_case(op, inp):
         return check_history(inp)
     if op == 'misc':
         return check_misc(inp)
+    if op == 'process_order':
+        return check_process_order(inp)
     raise ValueError('unknown op ' + op)
 
 
@@ -1857,6 +2334,96 @@ def _derive_args(rng, op, spec, nbuild):
     return {}
 
 
+ODD_SPECS = {'m': {'cls': 'monthly', 'mutable': True, 'unit': 'C', 'ap': [1, 1, 0, 12, 31, 23, 1, 0], 'meta': {'k2': [8]},
+                  'dts': [1, 2, 3], 'vals': [1, 2, 3]},
+             'd': {'cls': 'daily', 'mutable': True, 'unit': 'C', 'ap': [1, 1, 0, 12, 31, 23, 1, 0], 'meta': {'k2': [8]},
+                   'dts': [1, 2, 3], 'vals': [1, 2, 3]}}
+
+
+def _derive_args_bad(op, spec):
+    """Arguments each deriving operation refuses (read off the validation code); index 2 of `build` is a
+    collection of another class (not aligned with anything)."""
+    n = len(spec['vals'])
+    if op in ('add', 'sub', 'mul'):
+        return [{'c': 2}, {'s': 'text'}]
+    if op == 'div':
+        return [{'s': 0}, {'c': 2}]
+    if op == 'to_unit':
+        return [{'u': 3}]
+    if op == 'aligned':
+        return [{'v': [1] * (n + 1), 'u': None, 'm': None}, {'v': 3, 'u': 3, 'm': None}, {'v': [], 'u': None, 'm': True}]
+    if op == 'filter_pattern':
+        return [{'mask': []}]
+    if op == 'filter_ap':
+        ap = list(spec['ap'])
+        ap[6] = 2 if ap[6] == 1 else 1
+        return [{'ap': ap}] if spec['cls'] in ('hd', 'hc') else []
+    if op == 'cull':
+        return [{'ts': 7}, {'ts': 0}]
+    if op == 'interp_ts':
+        return [{'ts': 7}, {'ts': 0}]
+    if op == 'agg':
+        return [{'iv': 'monthly', 'fn': 'percentile', 'p': 150}]
+    if op == 'cfa':
+        return [{'s': 'text', 'u': 0}, {'c': 2, 'u': 0}, {'s': 2, 'u': 3}]
+    if op == 'windrose':
+        return [{'j': 2, 'n': 4}, {'j': 1, 'n': 0}]
+    if op in ('normalize', 'aggregate_area'):
+        return [{'area': 0}]
+    if op == 'statement_filter_many':
+        return [{'j': 2, 'gt': 0}]
+    return []
+
+
+RARE_KINDS = ['single', 'leap', 'ts', 'empty-meta', 'zeros']
+
+
+def _rare_spec(rng, cls, mutable, kind):
+    """Source specs of the rare classes: one value, leap year (29 Feb inside), other timesteps, empty
+    metadata, all-zero / falsy content."""
+    spec = gen_spec(rng, cls, mutable, hourly_days=1, energy=False)
+    spec['meta'] = {'k1': 1, 'k2': [1, 2]}
+    if kind == 'single':
+        if cls == 'hc':             # (a continuous collection covers whole days: the shortest has 24 values)
+            return spec
+        if cls == 'hd':
+            d, h = rng.randint(1, 3), rng.randint(0, 23)
+            spec.update(ap=[1, d, h, 1, d, h, 1, 0], dts=[(d - 1) * 1440 + h * 60])
+        elif cls == 'daily':
+            spec.update(ap=[1, 5, 0, 1, 5, 23, 1, 0], dts=[5])
+        elif cls == 'monthly':
+            spec.update(ap=[3, 1, 0, 3, 31, 23, 1, 0], dts=[3])
+        else:
+            spec.update(ap=[3, 1, 7, 3, 31, 7, 1, 0], dts=[30700])
+        spec['vals'] = [rng.choice([0, 21.5, -3])]
+    elif kind == 'leap':
+        if cls in ('hd', 'hc'):
+            full = [d * 1440 + h * 60 for d in (58, 59, 60) for h in range(24)]
+            spec.update(ap=[2, 28, 0, 3, 1, 23, 1, 1],
+                        dts=full if cls == 'hc' else sorted(rng.sample(full, 6) + [59 * 1440 + 720]))
+            spec['dts'] = sorted(set(spec['dts']))
+        elif cls == 'daily':
+            spec.update(ap=[2, 28, 0, 3, 1, 23, 1, 1], dts=[59, 60, 61])
+        elif cls == 'monthly':
+            spec.update(ap=[1, 1, 0, 12, 31, 23, 1, 1], dts=[2, 3])
+        else:
+            spec.update(ap=[2, 1, 0, 3, 31, 23, 1, 1], dts=[20000, 21200, 30600])
+        spec['vals'] = [rng.randint(-5, 30) for _ in spec['dts']]
+    elif kind == 'ts':
+        if cls in ('hd', 'hc'):
+            ts = rng.choice([3, 4, 5, 6, 10, 12, 15, 20, 30, 60] if cls == 'hd' else [2, 3, 4, 6, 12])
+            full = [h * 60 + k * (60 // ts) for h in range(24) for k in range(ts)]
+            spec.update(ap=[1, 1, 0, 1, 1, 23, ts, 0],
+                        dts=full if cls == 'hc' else sorted(rng.sample(full, 7)))
+            spec['vals'] = [rng.randint(-5, 30) for _ in spec['dts']]
+    elif kind == 'empty-meta':
+        spec['meta'] = {}
+    elif kind == 'zeros':
+        spec['vals'] = [0 for _ in spec['dts']]
+        spec['meta'] = {'k1': 0, 'k2': []}
+    return spec
+
+
 SWEEP_OPS = [o for o in DERIVE_OPS if o != 'cfa_ref'] + ['copy', 'hourlyplot', 'monthlychart',
                                                          'statement_filter_many', 'from_dict']
 
@@ -1864,13 +2431,48 @@ SWEEP_OPS = [o for o in DERIVE_OPS if o != 'cfa_ref'] + ['copy', 'hourlyplot', '
 def _sweep_cases(ctx):
     """Every deriving operation x class x mutability, with an aligned sibling as second source."""
     rng = ctx.rng
-    reps = 1 if ctx.quick and not ctx.searching else 3
+    reps = 1 if ctx.quick and not ctx.searching else 2
+    small = ctx.quick and not ctx.searching
+    n_kinds, n_ops = (2, 5) if small else ((3, 12) if ctx.quick else (len(RARE_KINDS), 16))
     for _ in range(reps):
         for cls in ('hc', 'hd', 'daily', 'monthly', 'mph'):
             for mutable in (True, False):
                 base = gen_spec(rng, cls, mutable, hourly_days=1)
                 if not base['meta'] or rng.random() < 0.5:
                     base['meta'] = {'k1': 1, 'k2': [1, 2]}
+                bases = [('plain', base)]
+                for kind in rng.sample(RARE_KINDS, n_kinds):
+                    bases.append((kind, _rare_spec(rng, cls, mutable, kind)))
+                for kind, rbase in bases[1:]:
+                    ops = rng.sample(SWEEP_OPS, n_ops)
+                    for op in ops:
+                        if op in ENERGY_OPS:
+                            continue
+                        spec = copy.deepcopy(rbase)
+                        sib = _twin(spec, vals=[(v % 7) + 1 for v in spec['vals']], mutable=rng.random() < 0.5,
+                                    meta={} if kind == 'empty-meta' else {'k2': [5]})
+                        args = _derive_args(rng, op, spec, 2)
+                        if kind == 'zeros' and 's' in args:
+                            args['s'] = 0                       # falsy scalar operand
+                        if kind == 'zeros' and op == 'aligned':
+                            args['v'] = 0
+                        case = {'build': [spec, sib], 'derive': {'on': 0, 'op': op, 'args': args}}
+                        if small:
+                            case['mutators'] = sorted(rng.sample(range(N_PLAIN_MUTATORS), 4)
+                                                      + rng.sample(REFUSED_IDX, 1))
+                        ctx.count('sweep:rare:' + kind)
+                        yield 'derive', case
+                for op in SWEEP_OPS:
+                    bad = _derive_args_bad(op, base)
+                    if small and bad:
+                        bad = [rng.choice(bad)]
+                    for args in bad:
+                        spec = copy.deepcopy(base)
+                        sib = _twin(spec, vals=[(v % 7) + 1 for v in spec['vals']], mutable=rng.random() < 0.5,
+                                    meta={'k2': [5]})
+                        ctx.count('sweep:refused-derive')
+                        yield 'derive', {'build': [spec, sib, ODD_SPECS['d' if cls == 'monthly' else 'm']],
+                                         'derive': {'on': 0, 'op': op, 'args': args}, 'mutators': []}
                 for op in SWEEP_OPS:
                     spec = copy.deepcopy(base)
                     if op in ('normalize', 'time_rate'):
@@ -1886,8 +2488,8 @@ def _sweep_cases(ctx):
                     if ctx.quick and not ctx.searching:
                         # quick tier: the five core mutators and three of the others per case
                         core_m = [0, 5, 7, 10, 4]
-                        rest = [i for i in range(len(ORACLE_MUTATORS)) if i not in core_m]
-                        case['mutators'] = sorted(core_m + rng.sample(rest, 3))
+                        rest = [i for i in range(N_PLAIN_MUTATORS) if i not in core_m]
+                        case['mutators'] = sorted(core_m + rng.sample(rest, 2) + rng.sample(REFUSED_IDX, 2))
                     yield 'derive', case
 
 
@@ -1913,16 +2515,61 @@ FIXED_CORPUS = [
                 'derive': {'on': 0, 'op': 'windrose', 'args': {'j': 1, 'n': 4}}}),
     ('derive', {'build': [_twin(_HC24, vals=[370] * 24, mutable=False), _twin(_HC24, meta={})],
                 'derive': {'on': 0, 'op': 'windrose', 'args': {'j': 1, 'n': 4}}}),
+    # refused calls (argument hygiene "also when the call fails"): WindRose with a collection that is not
+    # aligned / a direction count of 0 (direction values beyond 360 would be normalised), misaligned
+    # compute_function_aligned, unknown unit
+    ('derive', {'build': [_twin(_HC24, vals=[370] * 24), _twin(_HC24, meta={}), ODD_SPECS['m']],
+                'derive': {'on': 0, 'op': 'windrose', 'args': {'j': 2, 'n': 4}}, 'mutators': []}),
+    ('derive', {'build': [_twin(_HC24, vals=[370] * 24), _twin(_HC24, meta={}), ODD_SPECS['m']],
+                'derive': {'on': 0, 'op': 'windrose', 'args': {'j': 1, 'n': 0}}, 'mutators': []}),
+    ('derive', {'build': [_HC24, _twin(_HC24, meta={}), ODD_SPECS['m']],
+                'derive': {'on': 0, 'op': 'cfa', 'args': {'c': 2, 'u': 0}}, 'mutators': []}),
+    ('derive', {'build': [_HC24, _twin(_HC24, meta={}), ODD_SPECS['m']],
+                'derive': {'on': 0, 'op': 'to_unit', 'args': {'u': 3}}, 'mutators': []}),
+    # sources without metadata (`value or {}`) next to each other
+    ('derive', {'build': [_twin(_HC24, meta={}), _twin(_HC24, meta={})],
+                'derive': {'on': 0, 'op': 'dup', 'args': {}}}),
     ('derive', {'build': [_HC24], 'derive': {'on': 0, 'op': 'monthlychart', 'args': {}}}),
     ('derive', {'build': [_HC24], 'derive': {'on': 0, 'op': 'from_dict', 'args': {}}}),
     ('misc', {'what': 'header_duplicate'}), ('misc', {'what': 'header_duplicate', 'via': 'copy'}),
     ('misc', {'what': 'immutable_metadata_route', 'mutator': 'meta_set'}),
     ('misc', {'what': 'immutable_metadata_route', 'mutator': 'meta_replace'}),
     ('misc', {'what': 'immutable_metadata_route', 'mutator': 'meta_set', 'cls': 'monthly'}),
+    ('misc', {'what': 'dict_round_trip', 'via': 'collection'}), ('misc', {'what': 'dict_round_trip', 'via': 'header'}),
     ('misc', {'what': 'epw_sky_temperature'}),
     ('misc', {'what': 'location_from_dict_args'}),
     ('misc', {'what': 'epw_from_dict_args'}),
 ]
+
+
+REREAD = [('wea', 'ghi'), ('wea', 'dhi'), ('wea', 'directional'), ('wea', 'duplicate'), ('wea', 'filter_pattern'),
+          ('wea', 'filter_hoys'), ('wea', 'filter_ap'), ('epw', 'sky_temperature'), ('header', 'duplicate'),
+          ('header', 'copy')]
+WEA_CALLS = ['write:path', 'filter_by_pattern:empty', 'filter_by_hoys:text', 'filter_by_analysis_period:timestep',
+             'directional_irradiance:text', 'estimate_illuminance_components:misaligned',
+             'get_irradiance_value:outside']
+
+
+def _misc_cases(ctx):
+    rng = ctx.rng
+    small = ctx.quick and not ctx.searching
+    for w in MISC:
+        yield 'misc', {'what': w}
+    for obj, get in REREAD:
+        yield 'misc', {'what': 'reread', 'obj': obj, 'get': get}
+    yield 'misc', {'what': 'reread', 'obj': 'epw', 'get': 'sky_temperature', 'ip': True}
+    for call in WEA_CALLS:
+        yield 'misc', {'what': 'refused_wea', 'call': call}
+    if os.path.exists(_epw_path()):
+        calls = [(c, ip) for c in EPW_CALLS for ip in (True, False)]
+        if small:       # the refused calls on the IP object always; a sample of the rest
+            must = [(c, True) for c in EPW_CALLS if ':' in c and c != 'to_wea:hoys']
+            rest = [x for x in calls if x not in must]
+            calls = must[:]
+            calls += rng.sample(rest, 4)
+        for c, ip in calls:
+            ctx.count('epw_call:%s/%s' % (c, 'ip' if ip else 'si'))
+            yield 'misc', {'what': 'epw_call', 'call': c, 'ip': ip}
 
 
 def _oracle_cases(ctx):
@@ -1931,12 +2578,15 @@ def _oracle_cases(ctx):
         yield c
     for c in _sweep_cases(ctx):
         yield c
-    for w in MISC:
-        yield 'misc', {'what': w}
+    for c in _misc_cases(ctx):
+        yield c
+    for k in range(ctx.n(5, 40) * (2 if ctx.searching else 1)):
+        ctx.count('epw_oracle_histories')
+        yield 'history', epw_oracle_history(rng, ip_first=k % 2 == 0)
     if os.path.exists(_epw_path()):
-        for w, ip in (EPW_MISC if not ctx.quick or ctx.searching else EPW_MISC[:2] + EPW_MISC[3:5] + EPW_MISC[6:]):
+        for w, ip in (EPW_MISC if not ctx.quick or ctx.searching else [EPW_MISC[3], EPW_MISC[6]]):
             yield 'misc', {'what': w, 'ip': ip}
-    n = 400 if ctx.quick else 6000
+    n = 300 if ctx.quick else 6000
     if ctx.searching:
         n *= 3
     for _ in range(n):
@@ -1944,9 +2594,197 @@ def _oracle_cases(ctx):
         yield 'history', h
 
 
-def oracle(ctx):
+# --- process-order independence: the same cases in fresh interpreters, in different orders
+
+
+def _worker_main():
+    """Entry of a fresh interpreter: JSON list of [op, inp] on stdin -> JSON list of results on stdout."""
+    import sys
+    sys.path.insert(0, core.REPO)
+    cases = json.load(sys.stdin)
+    out = []
     with contextlib.redirect_stdout(io.StringIO()):
-        run_oracle_cases(ctx, _oracle_cases(ctx), check_case)
+        for op, inp in cases:
+            try:
+                res = check_case(op, inp)
+            except Exception as e:       # noqa: BLE001
+                res = {'required': 'oracle evaluates', 'observed': 'exception %s: %s' % (type(e).__name__, e),
+                       'sig': {'exception': type(e).__name__}}
+            out.append(res)
+    sys.__stdout__.write(json.dumps(out, default=str))
+
+
+def _spawn(cases):
+    import subprocess
+    import sys
+    env = dict(os.environ, LADYBUG_REPO=core.REPO, PYTHONHASHSEED='0')
+    f = tempfile.TemporaryFile()
+    f.write(json.dumps(cases, default=str).encode('utf-8'))
+    f.seek(0)
+    p = subprocess.Popen([sys.executable, '-c', 'from harness.props import c14; c14._worker_main()'],
+                         cwd=core.ROOT, env=env, stdin=f, stdout=subprocess.PIPE, stderr=subprocess.PIPE)
+    f.close()
+    return p
+
+
+def _collect(p, timeout=900):
+    try:
+        so, se = p.communicate(timeout=timeout)
+    except Exception as e:           # noqa: BLE001
+        p.kill()
+        return [{'required': 'fresh interpreter answers', 'observed': 'timeout/%s' % type(e).__name__,
+                 'sig': {'fail': 'worker'}}]
+    if p.returncode != 0:
+        return [{'required': 'fresh interpreter runs the cases', 'observed': se.decode('utf-8', 'replace')[-400:],
+                 'sig': {'fail': 'worker'}}]
+    return json.loads(so.decode('utf-8'))
+
+
+def _run_order(cases):
+    """Run cases in ONE fresh interpreter -> (index, result) of the first failure, or None."""
+    for i, r in enumerate(_collect(_spawn(cases))):
+        if r:
+            return i, r
+    return None
+
+
+def check_process_order(inp):
+    hit = _run_order(inp['order'])
+    if hit is None:
+        return None
+    i, r = hit
+    return {'required': 'case %d of %d, in this order in a fresh interpreter (%s): %s' % (
+                i, len(inp['order']), inp['order'][i][0], r.get('required')),
+            'observed': r.get('observed'), 'sig': dict(r.get('sig') or {}, process_order=True)}
+
+
+def _rarity(case):
+    """Rare classes first: refused calls, immutable sources, IP objects, leap years, single values."""
+    op, inp = case
+    txt = json.dumps(inp, default=str)
+    score = 0
+    if op == 'derive' and inp.get('mutators') == []:
+        score -= 8
+    if op == 'misc' and (':' in str(inp.get('call', '')) or inp.get('what') == 'refused_wea'):
+        score -= 8
+    if '"mutable": false' in txt:
+        score -= 4
+    if '"meta": {}' in txt:
+        score -= 3
+    if inp.get('ip') or '"ip": true' in txt:
+        score -= 2
+    if op == 'derive' and inp['build'][0]['ap'][7]:
+        score -= 2
+    if op == 'derive' and len(inp['build'][0]['vals']) == 1:
+        score -= 1
+    return score
+
+
+def _order_slice(ctx):
+    rng = ctx.rng
+    cases = [list(c) for c in FIXED_CORPUS if c[1].get('what') not in ('immutable_metadata_route', 'dict_round_trip')]
+    sweep = [list(c) for c in _sweep_cases(_Quiet(ctx))]
+    seen = set()
+    rng.shuffle(sweep)
+    for op, inp in sweep:
+        key = (inp['derive']['op'], inp.get('mutators') == [])
+        if key in seen:
+            continue
+        seen.add(key)
+        if inp.get('mutators'):
+            inp = dict(inp, mutators=sorted(rng.sample(inp['mutators'], 3)))
+        cases.append([op, inp])
+    for obj, get in REREAD:
+        cases.append(['misc', {'what': 'reread', 'obj': obj, 'get': get}])
+    for call in WEA_CALLS:
+        cases.append(['misc', {'what': 'refused_wea', 'call': call}])
+    for w in MISC:
+        cases.append(['misc', {'what': w}])
+    if os.path.exists(_epw_path()):
+        for call in ('to_wea:hoys-range', 'to_wea:path', 'write:path', 'to_file_string'):
+            cases.append(['misc', {'what': 'epw_call', 'call': call, 'ip': True}])
+    for k in range(2):
+        cases.append(['history', epw_oracle_history(rng, ip_first=k == 0)])
+    with contextlib.redirect_stdout(io.StringIO()):
+        for _ in range(ctx.n(15, 150)):
+            cases.append(['history', run_history(rng, None)[2]])
+    return json.loads(json.dumps(cases, default=str))
+
+
+class _Quiet(object):
+    """The sweep generator with the quick-tier sizes and without counting."""
+
+    def __init__(self, ctx):
+        self.rng, self.quick, self.searching = ctx.rng, True, False
+
+    def count(self, *a, **k):
+        pass
+
+
+def _shrink_order(order, j):
+    """A short prefix-free sublist that still fails at its last case (or None: it fails on its own)."""
+    bad = order[j]
+    if _run_order([bad]) is not None:
+        return None
+    for i in range(j):
+        if i < 6 and _run_order([order[i], bad]) is not None:
+            return [order[i], bad]
+    lo = 0
+    for cut in (j // 2, (3 * j) // 4, (7 * j) // 8):
+        if cut > lo and _run_order(order[cut:j] + [bad]) is not None:
+            lo = cut
+    return order[lo:j] + [bad]
+
+
+def _start_process_orders(ctx):
+    """Start the fresh interpreters (they work while the in-process oracle runs)."""
+    rng = ctx.rng
+    cases = _order_slice(ctx)
+    rare_first = sorted(cases, key=_rarity)
+    orders = [rare_first, list(reversed(rare_first))]
+    while len(orders) < ctx.n(3, 4):
+        o = list(cases)
+        rng.shuffle(o)
+        orders.append(o)
+    return orders, [_spawn(o) for o in orders]
+
+
+def _oracle_process_orders(ctx, started=None):
+    orders, procs = started or _start_process_orders(ctx)
+    if len(ctx.failures) >= 200:
+        for p in procs:
+            p.kill()
+        return
+    for o, p in zip(orders, procs):
+        res = _collect(p)
+        ctx.count('order:interpreters')
+        ctx.count('order:cases', len(res))
+        for c in o[:len(res)]:
+            ctx.case(('order', json.dumps(c, sort_keys=True, default=str)[:3000]))
+        for j, r in enumerate(res):
+            if not r:
+                continue
+            if (r.get('sig') or {}).get('fail') == 'worker':
+                ctx.fail('process_order', {'order': o}, r.get('required'), r.get('observed'), r.get('sig'))
+                return
+            short = _shrink_order(o, j)
+            if short is None:
+                ctx.fail(o[j][0], o[j][1], r.get('required'), r.get('observed'), r.get('sig'))
+            else:
+                inp = {'order': short}
+                rr = check_process_order(inp) or {'required': r.get('required'), 'observed': r.get('observed'),
+                                                  'sig': dict(r.get('sig') or {}, process_order=True)}
+                ctx.fail('process_order', inp, rr['required'], rr['observed'], rr['sig'])
+            return
+
+
+def oracle(ctx):
+    started = _start_process_orders(ctx)
+    try:
+        with contextlib.redirect_stdout(io.StringIO()):
+            run_oracle_cases(ctx, _oracle_cases(ctx), check_case)
+    finally:
+        _oracle_process_orders(ctx, started)
 
 
 LEVEL_TEXT = ('Machine-checked Lean 4 theorems over an executable heap model (Header / metadata dict with nested list '
@@ -1957,7 +2795,12 @@ LEVEL_TEXT = ('Machine-checked Lean 4 theorems over an executable heap model (He
               'hygiene incl. lists passed by the caller, EPW exports restore the object also on failure, '
               'immutability; the model is tied to the code by comparing, for every step of random histories, the '
               'sharing signature (which sub-objects are the same Python objects) and the snapshot of every live '
-              'object; the property itself is evaluated on the real objects by derive x mutator x side sweeps.')
+              'object; the property itself is evaluated on the real objects by derive x mutator x side sweeps. '
+              'Round 3: the history machine has outcomes (stepOut): a refused step leaves heap and live objects '
+              'as they were (C14_refused_preserves), reading steps in any order and number leave every report '
+              'unchanged (C14_read_pure), what an unedited object reports does not depend on the history '
+              '(C14_history_refines_fresh_partial); on the real objects: derivations asked again, history-free '
+              'twins, refused calls, one-object EPW histories, process-order runs in fresh interpreters.')
 LEVEL_NOTE = ('Trusted: Lean kernel; axioms propext/Classical.choice/Quot.sound only; the hand model of which cells '
               'each operation allocates/aliases (agreement on generated histories only); payload values of '
               'aggregation/validation/interpolation/Wea-derived collections; two of the 35 EPW fields modelled; '
